@@ -399,6 +399,10 @@ impl Driver for C11 {
                 let n = bs[b].text.chars().count();
                 for k in 0..=n {
                     self.run_key(&format!("p:{b}:{k}"), true, cx);
+                    if k % 64 == 0 && cx.expired() {
+                        cx.cap("time");
+                        break;
+                    }
                 }
                 cx.tag("fault:prefix");
             }
@@ -406,6 +410,10 @@ impl Driver for C11 {
                 let b = num(b);
                 let ops = ops_full();
                 for i in num(lo)..num(hi) {
+                    if cx.expired() {
+                        cx.cap("time");
+                        break;
+                    }
                     for op in &ops {
                         self.run_key(&format!("t:{b}:{i}:{op}"), true, cx);
                     }
@@ -422,6 +430,10 @@ impl Driver for C11 {
             ["U", b] => {
                 let b = num(b);
                 for i in 0..bs[b].toks.len() {
+                    if cx.expired() {
+                        cx.cap("time");
+                        break;
+                    }
                     for w in 0..UNI_WHERE {
                         for c in 0..NONASCII.len() {
                             self.run_key(&format!("u:{b}:{i}:{w}:{c}"), true, cx);
